@@ -480,6 +480,72 @@ def run_case(c, holder) -> tuple[bool, list[str], object]:
 
 
 _real_n = [0]
+_REAL_LIMIT_S = float(__import__("os").environ.get("VERIF_REAL_LIMIT_S", "420"))
+
+
+def _real_isolated(case, tcp_base: int, udp_base: int, prefix: str):
+    """One execution of the real data plane in a forked child that leads a process group of its own, under a wall-clock limit.
+    Every wait inside realdata has a time-out, the library's shm client has none: whatever stalls there (another run of this check
+    on the same machine taking a port, a server that went away) must cost this sample, not the whole check. Returns the statistics,
+    raises the child's Violation, or returns None when the limit was hit (counted as inconclusive by the caller)."""
+    import glob
+    import multiprocessing as mp
+    import os
+    import signal
+
+    from .. import realdata
+
+    ctx = mp.get_context("fork")
+    pr, pw = ctx.Pipe(duplex=False)
+
+    def child():
+        try:
+            os.setsid()
+            try:
+                res = ("ok", realdata.run_case(case, tcp_base, udp_base, prefix))
+            except Violation as v:
+                res = ("violation", str(v), v.clause)
+            except common.HarnessError as e:
+                res = ("harness", str(e))
+            except BaseException as e:  # noqa: BLE001
+                import traceback
+
+                res = ("error", f"{type(e).__name__}: {e}\n{traceback.format_exc()}")
+            pw.send(res)
+            pw.close()
+        finally:
+            os._exit(0)
+
+    p = ctx.Process(target=child, daemon=False)
+    p.start()
+    pw.close()
+    res = None
+    try:
+        if pr.poll(_REAL_LIMIT_S):
+            res = pr.recv()
+    except EOFError:
+        res = ("error", f"the real-sample process died without a result (exit code {p.exitcode})")
+    finally:
+        p.join(5 if res is not None else 0.1)
+        try:
+            os.killpg(p.pid, signal.SIGKILL)  # the sample's servers, whatever state they are in
+        except (ProcessLookupError, PermissionError):
+            pass
+        p.join(5)
+        for f in glob.glob(f"/dev/shm/{prefix}*"):
+            try:
+                os.unlink(f)
+            except OSError:
+                pass
+    if res is None:
+        return None
+    if res[0] == "ok":
+        return res[1]
+    if res[0] == "violation":
+        raise Violation(res[1], res[2])
+    if res[0] == "harness":
+        raise common.HarnessError(res[1])
+    raise RuntimeError(res[1])
 
 
 def _real_body(stats):
@@ -492,7 +558,7 @@ def _real_body(stats):
         _real_n[0] += 1
         shard_i = int(os.environ.get("VERIF_SHARD", "0"))
         try:
-            r = realdata.run_case(case, 32000 + shard_i * 40 + (_real_n[0] % 8) * 4, 1000 + shard_i * 6, f"v7r{os.getpid() % 10000}x{_real_n[0] % 1000}")
+            r = _real_isolated(case, 32000 + shard_i * 40 + (_real_n[0] % 8) * 4, 1000 + shard_i * 6, f"v7r{os.getpid() % 10000}x{_real_n[0] % 1000}")
         except Violation as v:
             if v.clause in ("bytes-differ", "fetch-bytes"):
                 raise  # wrong bytes are wrong whenever they happen
@@ -500,11 +566,16 @@ def _real_body(stats):
             # only a failure that recurs is reported
             _real_n[0] += 1
             try:
-                r = realdata.run_case(case, 32000 + shard_i * 40 + (_real_n[0] % 8) * 4, 1000 + shard_i * 6, f"v7r{os.getpid() % 10000}y{_real_n[0] % 1000}")
+                r = _real_isolated(case, 32000 + shard_i * 40 + (_real_n[0] % 8) * 4, 1000 + shard_i * 6, f"v7r{os.getpid() % 10000}y{_real_n[0] % 1000}")
             except Violation as v2:
                 raise Violation(f"{v2} (on both of two executions; the first: {v})", v2.clause)
             if stats is not None:
                 stats.inconclusive += 1
+        if r is None:
+            # the wall-clock limit of the sample was hit: nothing learnt about the code under test
+            if stats is not None:
+                stats.inconclusive += 1
+            return False, ["real_data_plane_sample_timed_out"]
         nt = r["transfers"] - r["redundant"] >= 1 and r["concurrent_commands"] >= 3
         return nt, ["real_data_plane_sample"] + (["real_redundant_transfer"] if r["redundant"] else []) + (["real_fetch"] if r["fetches"] else []) + \
             (["real_payload_over_1MB"] if any(d["size"] > 1_000_000 for d in case["datasets"]) else [])
